@@ -341,6 +341,76 @@ func runC09(c *core.Ctx) {
 	c.Exhaustive(fmt.Sprintf("all %d (signing, crypto) pairs over codes 0..20,255,256,65280,65534,65535 x 0..8,255,256,65280,65534,65535 through %d API paths", len(pairs), len(paths)))
 	c.Job("reused-inputs", c.N(400, 8000), func(i int, r *core.Rand) { c09ReusedInputs(c, r) })
 	c.Job("lifecycle", c.N(480, 9600), func(i int, r *core.Rand) { c09Lifecycle(c, i, r) })
+	// what a parser hands back TOGETHER WITH the error that refuses a prohibited type: "never returns"
+	// includes the value in the other result position — a complete, usable identity there is returned
+	// all the same (a zero or partial value is not one)
+	c.Job("returned-with-error", len(pairs)*c.N(1, 4), func(i int, r *core.Rand) {
+		p := pairs[i%len(pairs)]
+		if !rm.ProhibitedInDestination(p.s, p.c) && !rm.ProhibitedInRouterIdentity(p.s, p.c) {
+			return
+		}
+		k, _ := gen.KACOf(r, 0, 0)
+		k.Cert = gen.KeyCert(r, p.s, p.c)
+		enc := k.Encode()
+		c.Eval(1)
+		check := func(site string, router bool, kac *keys_and_cert.KeysAndCert, err error) {
+			if err == nil || kac == nil {
+				return
+			}
+			ys, yc, ok := typesOf(kac)
+			if !ok {
+				return
+			}
+			bad := rm.ProhibitedInDestination(ys, yc)
+			if router {
+				bad = rm.ProhibitedInRouterIdentity(ys, yc)
+			}
+			// complete: it serialises to the bytes that were refused
+			var b []byte
+			c.Call("c09/returned-with-error/Bytes", enc, func() { b, _ = kac.Bytes() })
+			if bad && len(b) >= 387 && string(b) == string(enc[:len(b)]) {
+				c.Violate(site, "prohibited-type-yielded-alongside-an-error", gen.Shape{"sig": ys, "crypto": yc, "class": "returned-with-error"}, enc,
+					fmt.Sprintf("the call failed (%s) but handed back a complete identity declaring %d/%d", firstLineOf(err.Error()), ys, yc))
+			}
+			c.Bucket("returned-with-error/examined/" + site)
+		}
+		c.Call("returned-with-error", enc, func() {
+			d, _, err := destination.ReadDestination(enc)
+			check("destination.ReadDestination", false, d.KeysAndCert, err)
+			if dp, _, err := destination.NewDestinationFromBytes(enc); dp != nil {
+				check("destination.NewDestinationFromBytes", false, dp.KeysAndCert, err)
+			}
+			if ri, _, err := router_identity.ReadRouterIdentity(enc); ri != nil {
+				check("router_identity.ReadRouterIdentity", true, ri.KeysAndCert, err)
+			}
+			if ri, _, err := router_identity.NewRouterIdentityFromBytes(enc); ri != nil {
+				check("router_identity.NewRouterIdentityFromBytes", true, ri.KeysAndCert, err)
+			}
+			l, _ := gen.LeaseSet2(r)
+			l.Dest, l.Offline, l.Flags = k, nil, 0
+			sl, ok := rm.SigLen(p.s)
+			if !ok {
+				sl = 64
+			}
+			l.Sig = r.Bytes(sl)
+			ls, _, err := lease_set2.ReadLeaseSet2(l.Encode())
+			d2 := ls.Destination()
+			check("lease_set2.ReadLeaseSet2", false, d2.KeysAndCert, err)
+			ml, _ := gen.MetaLeaseSet(r)
+			ml.Dest, ml.Offline, ml.Flags = k, nil, 0
+			ml.Sig = r.Bytes(sl)
+			ms, _, err := meta_leaseset.ReadMetaLeaseSet(ml.Encode())
+			d3 := ms.Destination()
+			check("meta_leaseset.ReadMetaLeaseSet", false, d3.KeysAndCert, err)
+			info, _ := gen.RouterInfo(r)
+			info.Ident = k
+			info.Sig = r.Bytes(sl)
+			pi, _, err := router_info.ReadRouterInfo(info.Encode())
+			if id := pi.RouterIdentity(); id != nil {
+				check("router_info.ReadRouterInfo", true, id.KeysAndCert, err)
+			}
+		})
+	})
 	c.Job("sampled-unknown", c.N(3000, 60000), func(i int, r *core.Rand) {
 		s, cr := r.Pick(65536), r.Pick(65536)
 		switch i % 3 {
